@@ -253,3 +253,62 @@ func VerifPauseProbe(acks []VerifProbeAck) ([]bool, []bool, string) {
 	}
 	return released, initAfter, "ok"
 }
+
+// VerifPauseSend is the wire-sender side of an upload's data phase: the REAL pipelineSendData goroutine of
+// a transfer over a queue of encoded blocks (base64 mode: a block is "#DATA:" + payload + newline).
+type VerifPauseSend struct {
+	v    *VerifPauseTransfer
+	ctx  *pipelineContext
+	acks <-chan trzszAck
+}
+
+// StartSendData queues one block per element of lens (payload length in bytes; 0 = the finish chunk),
+// closes the queue and starts pipelineSendData with the given chunk size (t.bufferSize).
+func (v *VerifPauseTransfer) StartSendData(bufSize int64, lens []int) *VerifPauseSend {
+	c, cancel := context.WithCancelCause(context.Background())
+	ctx := &pipelineContext{c, cancel, make(chan struct{}, 1)}
+	v.t.transferConfig.Binary = false
+	v.t.transferConfig.Newline = "\n"
+	v.t.bufferSize.Store(bufSize)
+	ch := make(chan trzszData, len(lens)+1)
+	for _, n := range lens {
+		data := bytes.Repeat([]byte{'A'}, n)
+		frame := append(append([]byte("#DATA:"), data...), '\n')
+		ch <- trzszData{data, frame, 0}
+	}
+	close(ch)
+	return &VerifPauseSend{v, ctx, v.t.pipelineSendData(ctx, ch)}
+}
+
+// SetBufSize stores a new chunk size, as pipelineRecvAck does after a slow or a fast acknowledgement.
+func (s *VerifPauseSend) SetBufSize(n int64) { s.v.t.bufferSize.Store(n) }
+
+// TakeAck takes one entry from the ack window if there is one (what the ack reader does): its length,
+// or -1 when the window is empty, -2 when the sender has finished and closed it.
+func (s *VerifPauseSend) TakeAck() int64 {
+	select {
+	case a, ok := <-s.acks:
+		if !ok {
+			return -2
+		}
+		return a.length
+	default:
+		return -1
+	}
+}
+
+// Outcome: "running" or the error class of the cancel cause ("ok" = cancelled without an error).
+func (s *VerifPauseSend) Outcome() string {
+	if s.ctx.Err() == nil {
+		return "running"
+	}
+	return verifPauseErrClass(context.Cause(s.ctx))
+}
+
+// Cancel ends the goroutine.
+func (s *VerifPauseSend) Cancel() {
+	s.ctx.cancel(nil)
+	s.v.t.stopTransferringFiles(false)
+	for range s.acks {
+	}
+}
